@@ -119,10 +119,10 @@ PROPS = {
         'trusted': ['harness/wire_runner.go'],
     },
     'C06': {
-        'props': ['C06', 'C06t'], 'suites': [('codec', 8000, 400000), ('cenc', 3000, 100000), ('ctopic', 8000, 400000), ('cmsg', 2000, 50000)],
+        'props': ['C06', 'C06t', 'C06m'], 'suites': [('codec', 8000, 400000), ('cenc', 3000, 100000), ('ctopic', 8000, 400000), ('cmsg', 2000, 50000)],
         'rule': 'codec: valid packets of all 15 types and all properties encoded by an independent encoder, CONNECT+following packets on one reader, truncation at every offset, remaining length +/-/huge, non-canonical and 5-9 byte varints, '
                 '7 property mutations, 4 UTF-8 mutations, flag flips, trailing bytes, byte flip/insert/delete, version mismatch, raw bytes, under v3.1/3.1.1/5; compared: every decoded field, consumed bytes, TotalBytes, re-encoding and its re-decode, error class, allocation. '
-                'cenc: encode side; ctopic: the four validity predicates on strings over {a,b,/,+,#,$,NUL,U+FFFD,...}; cmsg: Message.TotalBytes vs encoded PUBLISH; non-trivial = at least two bytes / a valid packet',
+                'cenc: encode side; ctopic: the four validity predicates on strings over {a,b,/,+,#,$,NUL,U+FFFD,...}; cmsg: Message.TotalBytes vs encoded PUBLISH, MessageToPublish and MessageFromPublish of it (the queued message keeps the application fields and drops the packet id); non-trivial = at least two bytes / a valid packet',
         'assumptions': ['bufio/io.ReadFull are modelled as "the byte list, then EOF"', 'allocation is observed as runtime.MemStats.TotalAlloc delta with a tolerance for size-class rounding'],
         'trusted': ['harness/codec.go independent encoder'],
     },
